@@ -106,7 +106,8 @@ Definition to_num {A} (v : val A) : option (option Z) :=
   match v with
   | VUndef => Some None | VBool b => Some (Some (if b then 1 else 0)%Z)
   | VInt z => Some (Some z) | VFlt z => Some (Some z) | VNaN => Some None
-  | VStr t => Some (str_num t) | VErr _ => None | VClo _ _ _ _ => None
+  | VStr t => Some (str_num t)
+  | VErr _ => Some None | VClo _ _ _ _ => Some None     (* ToPrimitive gives a non-numeric string *)
   end.
 
 Definition truthy {A} (v : val A) : bool :=
@@ -121,7 +122,8 @@ Definition mknum {A} (z : Z) : option (val A) :=
 Definition ofnum {A} (o : option Z) : option (val A) :=
   match o with None => Some VNaN | Some z => mknum z end.
 
-Definition is_str {A} (v : val A) := match v with VStr _ => true | _ => false end.
+(* values whose ToPrimitive is a string *)
+Definition is_str {A} (v : val A) := match v with VStr _ | VErr _ | VClo _ _ _ _ => true | _ => false end.
 
 Definition arith {A} (f : Z -> Z -> Z) (a b : val A) : option (val A) :=
   match to_num a, to_num b with
@@ -148,8 +150,7 @@ Definition binop_eval {A} (o : binop) (a b : val A) : option (val A) :=
             | VNaN, (VInt _ | VFlt _ | VNaN) => Some (VBool false)
             | (VInt _ | VFlt _), VNaN => Some (VBool false)
             | VStr x, VStr y => Some (VBool (N.eqb x y))
-            | (VErr _ | VClo _ _ _ _), _ => None
-            | _, (VErr _ | VClo _ _ _ _) => None
+            | (VErr _ | VClo _ _ _ _), (VErr _ | VClo _ _ _ _) => None     (* object identity: not modelled *)
             | _, _ => Some (VBool false)
             end
   end.
@@ -275,7 +276,10 @@ Definition Imem (al : bid -> bool) : memmodel := {|
    PUnused : the compile-time "putOnStack = false" variant, computing only what is needed;
    PGoja   : goja's transcription of that variant: ++/-- skip the ToNumber step (compiler_expr.go
              compiledUnaryExpr / emitUnary with putOnStack=false, vm.go _inc/_dec) *)
-Inductive posmode := PSpec | PUnused | PGoja.
+Inductive posmode := PSpec | PUnused | PGoja
+  | PGojaC.   (* PGoja + goja's order of checks for an assignment to a const binding: the compiler emits an
+                 unconditional TypeError for a store to a const (compiler.go emitVarSetter / throwConst),
+                 so the TDZ ReferenceError that the specification raises first is lost *)
 
 Section Interp.
 Variable MM : memmodel.
@@ -316,7 +320,10 @@ Definition setvar (c : mCtx MM) (rho : env) (x : name) (v : val A) : M unit :=
   | None => throwE ERef                      (* strict mode: assignment to an unresolvable reference *)
   | Some l => do cl <- readc c l;
               match cl with
-              | (_, None) => throwE ERef     (* TDZ *)
+              | (k, None) => match pm, k with
+                             | PGojaC, true => throwE EType
+                             | _, _ => throwE ERef     (* TDZ *)
+                             end
               | (true, Some _) => throwE EType
               | (false, Some _) => writec c l (false, Some v)
               end
@@ -423,7 +430,7 @@ Fixpoint eval (n : nat) (c : mCtx MM) (rho : env) (u : bool) (e : expr) {struct 
         do old <- getvar c rho x;
         if uflag u then
           match pm with
-          | PGoja => do nw <- incdec_goja inc old; do _ <- setvar c rho x nw; ret VUndef
+          | PGoja | PGojaC => do nw <- incdec_goja inc old; do _ <- setvar c rho x nw; ret VUndef
           | _ => do on <- incdec_used inc old; do _ <- setvar c rho x (snd on); ret VUndef
           end
         else
